@@ -342,6 +342,22 @@ class NamedTuple:
         return self.values[self.typ.fields.index(name)]
 
 
+class SymComp:
+    """List comprehension `[elt for t in range(lo, hi)]` over a SYMBOLIC range with a
+    pure element expression: `value` is elt evaluated once for the generic index term
+    `ivar` (a z3 Int constant); element k of the list is value[ivar := lo + k].
+    Only array constructors (jnp.vstack / jnp.array / jnp.stack, lib/ext_cem.py) consume it."""
+
+    def __init__(self, lo, hi, ivar, value):
+        self.lo = lo
+        self.hi = hi
+        self.ivar = ivar
+        self.value = value
+
+    def __repr__(self):
+        return f"<SymComp [{self.lo}, {self.hi})>"
+
+
 class Anything:
     """Result of a stubbed callee whose value is irrelevant to the obligations
     of the task (losses returned by a stubbed update routine, logged stats):
